@@ -7,16 +7,20 @@ from ..refs import units_ref as R
 from ..refs import unit_gens as G
 
 ID = "C08"
-RULE = ("Magnitude / Quantity operands with values of either sign, absolute uncertainty None or positive (mostly <50% relative, some 125-300%), "
-        "scalars and arrays, exact numbers of either sign, integer powers -3..3, rele= constructors, and linear unit "
-        "conversions between random same-dimension unit expressions. One predicate per clause of the property: result "
-        "error None or >= 0 everywhere; +/-: ea+eb (right error scaled by F(v)/F(u) for mixed units); exact factor k: "
-        "|k| ea resp. ea/|k|; two uncertain positive operands: >= a eb + b ea (product), >= ea/b + a eb/b^2 (quotient); "
-        "to(v)/value-preserving conversion scales the absolute error by F(u)/F(v) and keeps the relative error; exact "
-        "operands give an exact result; integer errors set with the in-place setter; a.to(b) with an uncertain reference "
-        "quantity b behaves like a/b. Non-trivial: negative factor or exponent or value, array operand, or a "
-        "Round 4: sums/differences of levels (dB family) with errors, the same object on both sides of an operator, bare numbers converted to (m)rad. "
-        "conversion with F(u)!=F(v) of an uncertain quantity. Distinct = distinct case JSON.")
+RULE = (
+    'Magnitude / Quantity operands with values of either sign, absolute uncertainty None or positive (mostly <50% '
+    'relative, some 125-300%), scalars and arrays, exact numbers of either sign, integer powers -3..3, rele= '
+    'constructors, and linear unit conversions between random same-dimension unit expressions. One predicate per '
+    'clause of the property: result error None or >= 0 everywhere; +/-: ea+eb (right error scaled by F(v)/F(u) '
+    'for mixed units); exact factor k: |k| ea resp. ea/|k|; two uncertain positive operands: >= a eb + b ea '
+    '(product), >= ea/b + a eb/b^2 (quotient); to(v)/value-preserving conversion scales the absolute error by '
+    'F(u)/F(v) and keeps the relative error; exact operands give an exact result; integer errors set with the '
+    'in-place setter; a.to(b) with an uncertain reference quantity b behaves like a/b. Non-trivial: negative '
+    'factor or exponent or value, array operand, or a conversion with F(u)!=F(v) of an uncertain quantity. Round '
+    '4: sums/differences of levels (dB family) with errors, the same object on both sides of an operator, bare '
+    'numbers converted to (m)rad. Later rounds: measured zeros; rebase() as a conversion; Quantity(x, q) with an '
+    'uncertain quantity q as the unit; integer absolute errors. Distinct = distinct case JSON.'
+)
 ASSUMPTIONS = [
     "the size of the power rule is not claimed by the property (only its sign is checked)",
     "first-order bounds use a 1e-12 relative slack plus 1e-14*|result| (the library subtracts interval ends from the result)",
